@@ -115,7 +115,7 @@ func main() {
 		return
 	}
 	if *showInl && p.Inl != nil {
-		fmt.Printf("inlined calls=%d devirtualised=%d threaded edges=%d dead helpers=%d\n", p.Inl.nCalls, p.Inl.nDevirt, p.Inl.nThread, len(p.Inl.dead))
+		fmt.Printf("inlined calls=%d devirtualised=%d threaded edges=%d dead helpers=%d named-condition edges=%d\n", p.Inl.nCalls, p.Inl.nDevirt, p.Inl.nThread, len(p.Inl.dead), p.Inl.nNamed)
 		for _, l := range p.Inl.Log {
 			fmt.Println("  ", l)
 		}
